@@ -144,7 +144,7 @@ func famEncodings(g *Gen, tier string, shard, nshards int) {
 		nHist, maxBlocks, maxAdds = 60, 40, 30
 	}
 	for h := 0; h < nHist; h++ {
-		s := newSim(g, rowConfigs[g.Intn(len(rowConfigs))])
+		s := newSim(g, pickRows(g))
 		// half of the histories: partial map forests learn the leaves to delete only through
 		// Verify(remember=true) of the block's (non-canonical) encoding
 		s.ingestMode = h%2 == 1
@@ -179,7 +179,7 @@ func famUndoRedo(g *Gen, tier string, shard, nshards int) {
 		nHist, maxBlocks, maxAdds = 40, 50, 24
 	}
 	for h := 0; h < nHist; h++ {
-		s := newSim(g, rowConfigs[g.Intn(len(rowConfigs))])
+		s := newSim(g, pickRows(g))
 		nBlocks := 2 + g.Intn(maxBlocks)
 		for b := 0; b < nBlocks; b++ {
 			mode := g.Intn(8)
